@@ -600,6 +600,7 @@ func (cb *chunkBuilder) reset() {
 
 func (cb *chunkBuilder) add(cols map[string]*btapb.ColumnFamily, r *btpb.Row) bool {
 	scrubRow(r, cols)
+	n := len(cb.chunks)
 	newRow := true
 	for _, fam := range r.Families {
 		newFam := true
@@ -638,7 +639,7 @@ func (cb *chunkBuilder) add(cols map[string]*btapb.ColumnFamily, r *btpb.Row) bo
 	if len(cb.chunks) > 0 {
 		cb.chunks[len(cb.chunks)-1].RowStatus = &btpb.ReadRowsResponse_CellChunk_CommitRow{CommitRow: true}
 	}
-	return true
+	return len(cb.chunks) > n
 }
 
 // filterRow modifies a row with the given filter. Returns true if at least one cell from the row matches,
